@@ -55,6 +55,8 @@ def tpl_size(old, d, op, new, d2, simple=0, half=0, _twin=False):
                 if half == 1 and new < 0:
                     from fractions import Fraction
                     new = Fraction(new, 2)      # e.g. -1/2: still negative, still to be rejected
+                elif half == 2 and new < 0:
+                    new = float("-inf")
                 if new < 0:
                     snap = (pool.num_running, w.live, pool._enough_room._value, len(w.W))
                     try:
@@ -172,7 +174,7 @@ def families(tier):
     thorough = tier == "thorough"
     P = ["old", "d", "op", "new", "d2", "simple", "half"]
     dm = 4 if thorough else 3
-    pre = ["old >= -1", "0 <= d <= %d" % dm, "0 <= op <= 1", "0 <= d2 <= 3", "op == 1 or (new == 0 and d2 == 0)", "0 <= simple <= 1", "0 <= half <= 1", "half == 0 or (op == 1 and -9 <= new < 0)"]
+    pre = ["old >= -1", "0 <= d <= %d" % dm, "0 <= op <= 1", "0 <= d2 <= 3", "op == 1 or (new == 0 and d2 == 0)", "0 <= simple <= 1", "0 <= half <= 2", "half == 0 or (op == 1 and -9 <= new < 0)", "half != 2 or new == -1"]
     return [Family(name="size", fn="tpl_size", params=P, pre=pre, parts=parts_product(d=range(dm + 1), op=(0, 1), simple=(0, 1)),
                    twin_pre=["d == 0", "op == 1"], twin_args=[1, 0, 1, 3, 2, 0, 0]),
             Family(name="eventually", fn="tpl_eventually", params=["old", "d", "new"],
